@@ -206,6 +206,40 @@ def fallback_case(exc_kind):
     return {'exc': exc_kind, 'paths': len(paths), 'bad': bad[:3]}
 
 
+def prototype_case(kind):
+    """distribution given as an instance prototype (for all columns, or twice in a per-column dict): every column gets its
+    own fresh object of the prototype's class, fitted on that column's data; the prototype itself stays unfitted"""
+    def fn(ctx):
+        gm.StubDist.COLIDX = {'c': 0, 'a': 1}
+        gm.StubDist.FITS = []
+        gm.StubDist.RAISE_ON = set()
+        X = pd.DataFrame(symarr('x', 2, 2), columns=['c', 'a'])
+        proto = gm.StubDist()
+        cfg = proto if kind == 'instance' else {'c': proto, 'a': proto}
+        cs = gm.CorrStub()
+        with gm.gm_patches(), patched(pd.DataFrame, corr=lambda self, *a, **k: cs(self, *a, **k)):
+            m = GaussianMultivariate(distribution=cfg)
+            cols, unis = m._fit_columns(X)
+        return cols, unis, proto, list(gm.StubDist.FITS), X
+    paths, ex, _ = explore(fn)
+    bad = []
+    for p in paths:
+        if p.status != 'ok':
+            bad.append(f'fit does not succeed: {type(p.exc).__name__}: {p.exc}')
+            continue
+        cols, unis, proto, fits, X = p.value
+        if cols != ['c', 'a'] or len(unis) != 2:
+            bad.append(f'columns {cols}')
+            continue
+        if unis[0] is unis[1] or any(u is proto for u in unis):
+            bad.append('the prototype object itself (or one shared object) models several columns')
+        if getattr(proto, 'fitted', False) and not any(u is proto for u in unis):
+            bad.append('the prototype was fitted')
+        if not all(isinstance(u, gm.StubDist) for u in unis):
+            bad.append(f'classes {[type(u).__name__ for u in unis]}')
+    return {'kind': kind, 'paths': len(paths), 'bad': bad[:3]}
+
+
 CH_SRC = '''
 import sys
 from typing import Dict, Optional
@@ -282,6 +316,8 @@ def task(a):
             return (a, wrapper_fit_case())
         if a[0] == 'fallback':
             return (a, fallback_case(a[1]))
+        if a[0] == 'prototype':
+            return (a, prototype_case(a[1]))
     except BaseException:
         import traceback
         return (a, {'error': traceback.format_exc()[-1500:]})
@@ -308,6 +344,17 @@ def concrete_violation():
         best = min(ks.values())
         if type(sel) not in ks or ks[type(sel)] > best + 1e-12 or sel.fitted:
             return True, f'select_univariate on {nm} data returned {type(sel).__name__} (KS {ks.get(type(sel))}) but the minimum is {best}'
+
+    proto = GaussianKDE(bw_method=0.5)
+    tt = pd.DataFrame({'a': rs.normal(size=60), 'b': rs.uniform(5, 9, size=60)})
+    for cfg in (proto, {'a': proto, 'b': proto}):
+        mm = GaussianMultivariate(distribution=cfg)
+        mm.fit(tt)
+        u0, u1 = mm.univariates
+        if u0 is u1 or u0 is proto or u1 is proto or proto.fitted:
+            return True, 'an instance prototype is fitted in place / shared by several columns instead of being copied per column'
+        if not (abs(float(u0.cdf(np.array([0.0]))[0]) - 0.5) < 0.25 and abs(float(u1.cdf(np.array([7.0]))[0]) - 0.5) < 0.25):
+            return True, 'with an instance prototype the columns are not modelled on their own data'
 
     class Broken(GaussianUnivariate):
         def fit(self, X):
@@ -400,6 +447,7 @@ def run(tier, seed):
             jobs.append(('sel', m, (m - 1,), 'class', (0,)))
     for e in ('RuntimeError', 'ValueError', 'Exception'):
         jobs.append(('fallback', e))
+    jobs += [('prototype', 'instance'), ('prototype', 'dict naming one instance twice')]
     viol = False
     for a, r in pool_map(task, jobs):
         if r.get('error'):
@@ -413,7 +461,8 @@ def run(tier, seed):
         nm = {'sel': f"select_univariate: {ax[1]} candidates, {list(ax[2] or [])} failing, {list(ax[4] or [])} with a NaN statistic, prototypes as {ax[3]}: fittable minimum-KS candidate, fresh instance ({n} paths)",
               'filters': f'_select_candidates == registry filter for all {n} (parametric, bounded) combinations; explicit candidates win',
               'wrapper': 'Univariate.fit selects on the data, fits the selected instance, marks fitted',
-              'fallback': f"a distribution raising {ax[1]} in fit => column modelled by a fitted GaussianUnivariate, fit succeeds"}[a[0]]
+              'fallback': f"a distribution raising {ax[1]} in fit => column modelled by a fitted GaussianUnivariate, fit succeeds",
+              'prototype': f"distribution given as {ax[1]}: one fresh object of the prototype's class per column, prototype untouched"}[a[0]]
         if r.get('exhaustive') is False:
             ck.inconcl(nm + ': not exhaustive')
         ck.ob(nm, 'unsat' if not r['bad'] else 'sat', 0.0, queries=n)
